@@ -375,6 +375,251 @@ class Req:
         return (worst <= cap and worst <= ia.AV_MAX_LEN,
                 "longest HSS signature within the per-level limits = %d bytes; buffer capacity %d; ArrayVec length field holds %d" % (worst, cap, ia.AV_MAX_LEN))
 
+    # ------------------------------------------------------------------ fast-verify search (C15)
+    def fv_anchors(self):
+        F = self.F
+        evals = [f for f in F.fns.values() if f.j.get("output", {}).get("s") == "u16" and any("ArrayVec<[(usize, u16, u64);" in t["s"] for t in f.j.get("inputs", []))]
+        inits = [f for f in F.fns.values() if "ArrayVec<[(usize, u16, u64);" in f.j.get("output", {}).get("s", "") and f.j["output"].get("k") == "tuple"]
+        if len(evals) != 1 or len(inits) != 1:
+            raise AnchorLost("fast-verify eval/init: %s / %s" % ([f.path for f in evals], [f.path for f in inits]))
+        EV, IN = evals[0], inits[0]
+        workers = [f for f in F.fns.values() if any(F.call_targets(f, t) == [EV.path] for b, t in f.calls()) and f.j.get("output", {}).get("k") == "tuple"]
+        if len(workers) != 1:
+            raise AnchorLost("fast-verify worker: %s" % [f.path for f in workers])
+        W = workers[0]
+        opts = [f for f in F.fns.values() if any(F.call_targets(f, t) == [IN.path] for b, t in f.calls()) and not f.j.get("parent_fn")]
+        if len(opts) != 1:
+            raise AnchorLost("fast-verify optimiser: %s" % [f.path for f in opts])
+        return EV, IN, W, opts[0]
+
+    def r_T_FVEVAL(self):
+        bad = []
+        for (n, ty, w, p, ls) in self.rows():
+            mx = 8 * n // w
+            mask = (1 << w) - 1
+            if mx > p:
+                bad.append((n, w, "max %d > p %d" % (mx, p)))
+            for i in range(p):
+                idx = (i * w) // 8
+                shift = w * ((~i) & (8 // w - 1))
+                if shift > 7:
+                    bad.append((n, w, "shift %d" % shift))
+                if i < mx and idx >= n:
+                    bad.append((n, w, "digest index %d >= n at digit %d" % (idx, i)))
+                if i >= mx and not (n <= idx <= n + 1):
+                    bad.append((n, w, "checksum index %d outside n..n+1 at digit %d" % (idx, i)))
+            if p * mask > 65535:
+                bad.append((n, w, "sum of %d digits of at most %d exceeds u16" % (p, mask)))
+        return (not bad and bool(self.rows()), "for all %d (n, w) rows: 8n/w <= p, digit i < 8n/w reads digest byte < n, digit i >= 8n/w reads checksum byte n..n+1, shifts <= 7, p*(2^w-1) <= 65535 %s"
+                % (len(self.rows()), bad[:3]))
+
+    def r_fv_init_shape(self):
+        EV, IN, W, O = self.fv_anchors()
+        ex = expr.Expr(self.F, IN)
+        rets = [s for _, _, s in IN.iter_stmts() if s["k"] == "assign" and s["place"]["local"] == 0 and s["rv"]["k"] == "aggregate"]
+        if len(rets) != 1 or len(rets[0]["rv"]["ops"]) != 3:
+            return (False, "%s does not return one 3-tuple" % IN.path)
+        e_max, e_sum, e_vec = [ex.of_operand(o) for o in rets[0]["rv"]["ops"]]
+
+        def has_w(e):
+            return expr.has_call(e, "get_winternitz") or expr.has_field(e, "winternitz")
+        ok_max = e_max[0] == "bin" and e_max[1] == "Div" and any(x[0] == "bin" and x[1] == "Mul" and ("const", 8) in (x[2], x[3]) for x in expr.walk(e_max[2])) and expr.has_assoc(e_max[2], "OUTPUT_SIZE") and has_w(e_max[3])
+        ok_sum = e_sum[0] == "bin" and e_sum[1] == "Mul" and e_max in (e_sum[2], e_sum[3]) and any(x[0] == "bin" and x[1] == "Shl" and x[2] == ("const", 1) and has_w(x[3]) for x in expr.walk(e_sum))
+        pushes = [(b, t) for b, t in IN.calls() if core.strip_generics(core.callee_path(t) or "").endswith("ArrayVec::push") and not IN.blocks[b]["cleanup"]]
+        ok_vec = False
+        if len(pushes) == 1:
+            pe = ex.of_operand(pushes[0][1]["args"][1])
+            from .c03 import item_of
+            ok_vec = pe[0] == "call" and pe[1].endswith("coef_helper") and item_of(pe[2][0]) is not None and has_w(pe[2][1])
+            lp = self.push_loops_bounded_by([IN.key], ("get_num_winternitz_chains", "get_hash_chain_count", "hash_chain_count"))
+            ok_vec = ok_vec and lp[0]
+        return (ok_max and ok_sum and ok_vec, "%s returns (8n/w: %s, (8n/w)*(2^w-1): %s, [coef_helper(i, w) for i in 0..p]: %s)" % (IN.path, ok_max, ok_sum, ok_vec))
+
+    def r_fv_helper_matches_table(self):
+        """coef_helper(i, w) = (i*w/8, w*(!i & (8/w - 1)), (1<<w)-1): the expressions T-FVEVAL evaluates."""
+        h = [f for f in self.F.fns.values() if f.j.get("name") == "coef_helper"]
+        if len(h) != 1:
+            raise AnchorLost("coef_helper")
+        f = h[0]
+        ex = expr.Expr(self.F, f)
+        rets = [s for _, _, s in f.iter_stmts() if s["k"] == "assign" and s["place"]["local"] == 0 and s["rv"]["k"] == "aggregate"]
+        if len(rets) != 1 or len(rets[0]["rv"]["ops"]) != 3:
+            return (False, "coef_helper does not return one 3-tuple")
+        ei, es, em = [ex.of_operand(o) for o in rets[0]["rv"]["ops"]]
+
+        def strip(e):
+            while isinstance(e, tuple) and e[0] == "cast":
+                e = e[1]
+            return e
+        ei, es, em = strip(ei), strip(es), strip(em)
+        ok_i = ei[0] == "bin" and ei[1] == "Div" and strip(ei[3]) == ("const", 8) and any(x[0] == "bin" and x[1] == "Mul" for x in expr.walk(ei[2])) and {("arg", 1), ("arg", 2)} <= set(expr.walk(ei[2]))
+        ok_s = es[0] == "bin" and es[1] == "Mul" and any(x[0] == "bin" and x[1] == "BitAnd" for x in expr.walk(es)) and any(x[0] == "un" and x[1] == "Not" for x in expr.walk(es)) \
+            and any(x[0] == "bin" and x[1] == "Div" and strip(x[2]) == ("const", 8) for x in expr.walk(es))
+        ok_m = em[0] == "bin" and em[1] == "Sub" and strip(em[3]) == ("const", 1) and any(x[0] == "bin" and x[1] == "Shl" and strip(x[2]) == ("const", 1) for x in expr.walk(em[2]))
+        return (ok_i and ok_s and ok_m, "coef_helper returns (i*w/8: %s, w*(!i & (8/w-1)): %s, (1<<w)-1: %s)" % (ok_i, ok_s, ok_m))
+
+    def r_fv_eval_shape(self):
+        EV, IN, W, O = self.fv_anchors()
+        ex = expr.Expr(self.F, EV)
+        idx_calls = [(b, t) for b, t in EV.calls() if core.strip_generics(core.callee_path(t) or "").endswith("::index") and not EV.blocks[b]["cleanup"]]
+        loops = EV.natural_loops()
+        if len(idx_calls) != 2 or len([1 for h, body in loops]) < 2:
+            return (False, "%s: %d table lookups, %d loops" % (EV.path, len(idx_calls), len(loops)))
+        # first loop 0..max, second max..p; table lookups indexed by the loop item
+        descr = []
+        ok = True
+        for b, t in idx_calls:
+            ie = ex.of_operand(t["args"][1])
+            rng = [x for x in expr.walk(ie) if x[0] == "adt" and "Range" in str(x[1])]
+            ok = ok and bool(rng)
+            descr.append(str(rng[0])[:120] if rng else "?")
+        # the checksum lookup subtracts the hash output size (not a literal)
+        subs = []
+        for b, blk in enumerate(EV.blocks):
+            t = blk["term"]
+            if t["k"] == "assert" and t["msg"]["kind"] == "Overflow" and t["msg"].get("op") == "Sub" and not blk["cleanup"]:
+                ea, eb = ex.of_operand(t["msg"]["a"]), ex.of_operand(t["msg"]["b"])
+                subs.append((ea, eb))
+        sub_ok = any(expr.has_assoc(eb, "OUTPUT_SIZE") and not expr.has_assoc(ea, "OUTPUT_SIZE") for ea, eb in subs)
+        lit = [eb for ea, eb in subs if eb[0] == "const" and eb[1] in (16, 24, 32)]
+        return (ok and sub_ok and not lit, "%s: lookups driven by ranges %s; checksum byte index = table index - H output size: %s; hash-size literals subtracted: %s" % (EV.path, descr, sub_ok, lit))
+
+    def r_fv_cache_from_init_of_same_parameter(self):
+        EV, IN, W, O = self.fv_anchors()
+        # O: cache = IN(&P); W(.., P, &cache, ..) inside the worker closure; W: EV(P, digest, cache) with W's own params
+        oc = [(b, t) for b, t in O.calls() if self.F.call_targets(O, t) == [IN.path]]
+        if len(oc) != 1:
+            return (False, "optimiser calls init %d times" % len(oc))
+        p_init = flow.origin(O, oc[0][1]["args"][0])
+        wc = [(b, t) for b, t in W.calls() if self.F.call_targets(W, t) == [EV.path]]
+        if len(wc) != 1:
+            return (False, "worker calls eval %d times" % len(wc))
+        a_p, a_d, a_c = [flow.origin(W, a) for a in wc[0][1]["args"]]
+        okw = a_p[0] == "arg" and a_c[0] == "arg"
+        # the digest handed to eval is a hash output
+        okd = a_d[0] == "call" and (flow.decl_path(a_d[2]) or "").endswith("finalize")
+        # callers of W: closures capturing O's locals; the captured parameter and cache are O's parameter / init result
+        callers = [c for c in self.F.callers_of(W.path) if c[2] == "call"]
+        okc = bool(callers) and all(self.F.fns[c[0]].j.get("parent_fn") and core.strip_generics(self.F.fns[c[0]].j["parent_fn"]).startswith(core.strip_generics(O.path)) for c in callers)
+        return (p_init[0] == "arg" and okw and okd and okc,
+                "cache = init(optimiser parameter %s); worker passes its own parameter/cache arguments to eval: %s; digest is a finalize() output: %s; worker called only from the optimiser's closures: %s"
+                % (p_init[:2], okw, okd, okc))
+
+    def r_fv_worker_vectors_have_output_size(self):
+        EV, IN, W, O = self.fv_anchors()
+        vecs = [t["dest"]["local"] for b, t in W.calls() if core.strip_generics(core.callee_path(t) or "") == "tinyvec::arrayvec::ArrayVec::new" and not W.blocks[b]["cleanup"]]
+        if len(vecs) < 1:
+            return (False, "no vectors created in %s" % W.path)
+        detail = []
+        ok = True
+        for v in vecs:
+            grow = []
+            for b, t in W.calls():
+                if W.blocks[b]["cleanup"]:
+                    continue
+                cp = core.strip_generics(core.callee_path(t) or "")
+                last = cp.rsplit("::", 1)[-1]
+                if t["args"] and flow.resolve_owner(W, t["args"][0], want_mut=True) == v and cp.startswith("tinyvec::arrayvec::ArrayVec::") and last not in ("as_mut_slice", "as_slice", "len", "deref_mut", "deref"):
+                    grow.append((b, last))
+            pushes = [g for g in grow if g[1] == "push"]
+            others = [g for g in grow if g[1] != "push"]
+            inloop = False
+            if len(pushes) == 1:
+                b = pushes[0][0]
+                for h, body in W.natural_loops():
+                    if b in body:
+                        for nb in body:
+                            t = W.blocks[nb]["term"]
+                            if t["k"] == "call" and core.strip_generics(core.callee_path(t) or "").endswith("::next"):
+                                e = expr.Expr(self.F, W).of_operand(t["args"][0])
+                                if any(x == ("const", 0) for x in expr.walk(e)) and (expr.has_call(e, "get_hash_function_output_size") or expr.has_assoc(e, "OUTPUT_SIZE")):
+                                    inloop = True
+            # other whole definitions must be hash outputs
+            redefs = [d for d in W.defs_of(v) if not W.blocks[d[0]]["cleanup"] and not (d[1] == "term" and core.strip_generics(core.callee_path(d[2]) or "").endswith("ArrayVec::new"))]
+            red_ok = True
+            for b, i, d in redefs:
+                o = flow.origin(W, d["rv"]["op"]) if i != "term" and d["k"] == "assign" and d["rv"]["k"] == "use" else (("call", b, d) if i == "term" else ("?",))
+                red_ok = red_ok and o[0] == "call" and (flow.decl_path(o[2]) or "").endswith("finalize")
+            vok = len(pushes) == 1 and not others and inloop and red_ok
+            ok = ok and vok
+            detail.append("_%d: one push per iteration of 0..output size: %s, no other growth: %s, re-definitions are hash outputs: %s" % (v, inloop and len(pushes) == 1, not others, red_ok))
+        return (ok, "%s: %s" % (W.path, "; ".join(detail)))
+
+    def r_fv_results_only_from_workers(self):
+        EV, IN, W, O = self.fv_anchors()
+        sends = []
+        for p, f in self.F.fns.items():
+            for b, t in f.calls():
+                if core.strip_generics(core.callee_path(t) or "").endswith("Sender::send") and not f.blocks[b]["cleanup"]:
+                    sends.append((f, b, t))
+        if not sends:
+            return (False, "no channel send found")
+        ok = True
+        for f, b, t in sends:
+            o = flow.origin(f, t["args"][1])
+            ok = ok and o[0] == "call" and self.F.call_targets(f, o[2]) == [W.path]
+        # the drain copies element .1 of the received tuple into the randomizer parameter
+        return (ok, "every value sent on the channel (%d site(s)) is the return value of %s" % (len(sends), W.path))
+
+    def r_fv_message_none_in_live_contexts(self):
+        EV, IN, W, O = self.fv_anchors()
+        mp = [i for i, t in enumerate(O.j["inputs"]) if t.get("path") == flow.OPTION and core.is_u8_slice_ref(t["args"][0])]
+        if len(mp) != 1:
+            raise AnchorLost("optional message parameter of %s" % O.path)
+        ctxs = [(O.path, c) for c in self.an.ctx_log.get(O.path, ())]
+        bad = []
+        for k in ctxs:
+            sub = dict(k[1][-1]) if k[1] and isinstance(k[1][-1], tuple) and k[1][-1] and isinstance(k[1][-1][0], tuple) else {}
+            okv = sub.get((mp[0] + 1, ("#ok",)))
+            if okv != (0, 0):
+                bad.append(okv)
+        return (bool(ctxs) and not bad, "the optimiser is analysed in %d context(s), all with message = None (others: %s)" % (len(ctxs), bad[:3]))
+
+    def r_fv_trailer_len_is_output_size(self):
+        """Every caller hands the optimiser, as the buffer to fill, the suffix of `split_at_mut(len - H::OUTPUT_SIZE)`
+        or a randomizer vector that holds a hash output."""
+        from .c15 import split_component
+        EV, IN, W, O = self.fv_anchors()
+        rp = [i for i, t in enumerate(O.j["inputs"]) if t.get("k") == "ref" and t.get("mut") and t["ty"].get("k") == "slice"]
+        if len(rp) != 1:
+            raise AnchorLost("buffer parameter of %s" % O.path)
+        kinds = []
+        for cp, b, k in self.F.callers_of(O.path):
+            if k != "call":
+                continue
+            g = self.F.fns[cp]
+            t = g.blocks[b]["term"]
+            a = t["args"][rp[0]]
+            sp = split_component(g, a, ("deref_mut", "as_mut"))
+            if sp is not None and sp[1] == 1:
+                e = expr.Expr(self.F, g).of_operand(sp[0]["args"][1])
+                if e[0] == "bin" and e[1] == "Sub" and expr.has_call(e[2], "::len") and expr.has_assoc(e[3], "OUTPUT_SIZE"):
+                    kinds.append("suffix")
+                    continue
+            o = flow.resolve_owner(g, a, want_mut=True)
+            if o is not None and "ArrayVec<[u8;" in g.locals[o]["ty"]["s"] and self.check("randomizer-is-hash-output")[0]:
+                kinds.append("randomizer")
+                continue
+            kinds.append("?")
+        return ("suffix" in kinds and "?" not in kinds, "buffers handed to the optimiser: %s" % kinds)
+
+    def r_fv_scope_and_channel(self):
+        EV, IN, W, O = self.fv_anchors()
+        scope_b = [b for b, t in O.calls() if core.strip_generics(core.callee_path(t) or "").endswith("::scope") and not O.blocks[b]["cleanup"]]
+        if len(scope_b) != 1:
+            return (False, "scope calls in %s: %d" % (O.path, len(scope_b)))
+        sb = scope_b[0]
+        # the receiver is neither dropped nor moved before the scope call has returned
+        recv = [l for l, d in enumerate(O.locals) if d["ty"].get("k") == "adt" and d["ty"].get("path", "").endswith("channel::Receiver")]
+        early = []
+        for l in recv:
+            for b, t in O.iter_terms():
+                if O.blocks[b]["cleanup"]:
+                    continue
+                if t["k"] == "drop" and t["place"]["local"] == l and not O.dominates(sb, b):
+                    early.append(l)
+        return (bool(recv) and not early, "receiver(s) %s stay alive until the scoped threads have been joined (so send cannot fail): %s" % (recv, not early))
+
     # ------------------------------------------------------------------ guard facts
     def r_GF_LEVEL(self):
         from . import c02
